@@ -93,4 +93,118 @@ def addFromComponents (fs : Files) (r : Req) : Files × Option PyErr :=
   | .error e => (fs, some e)
   | .ok pl => commit fs pl
 
+/-! ## `add_basis_from_dict`: the caller's dictionary becomes the component file -/
+
+/-- the value a reference map gives for a group of elements: one key, or a list of keys -/
+inductive RefVal
+  | one (k : String)
+  | many (ks : List String)
+  deriving Repr
+
+def RefVal.toJ : RefVal → J
+  | .one k => .arr [.str k]
+  | .many ks => .arr (ks.map .str)
+
+/-- the `refs` argument: `None`, a string, a list of strings, a map from compact element strings, or anything else -/
+inductive RefSpec
+  | none
+  | one (k : String)
+  | many (ks : List String)
+  | map (m : List (String × RefVal))
+  | other
+  deriving Repr
+
+/-- `elements[el]['references'] = v` -/
+def setRefs (els : Dict) (el : String) (v : J) : Except PyErr Dict :=
+  match Dict.get? els el with
+  | some (.obj e) => .ok (Dict.set els el (.obj (Dict.set e "references" v)))
+  | some _ => .error .type
+  | none => .error .key
+
+/-- one entry of the map: every element it names must be in the dictionary and not named before -/
+def attachGroup (orig : List String) (v : RefVal) : List String → Dict × List String → Except PyErr (Dict × List String)
+  | [], st => .ok st
+  | el :: rest, (els, done) =>
+    if !orig.contains el then .error .runtime else
+    if done.contains el then .error .runtime else
+    match setRefs els el v.toJ with
+    | .error e => .error e
+    | .ok els' => attachGroup orig v rest (els', done)
+
+/-- the loop over the reference map; `expand` is `misc.expand_elements(k, True)` -/
+def attachMap (expand : String → Except PyErr (List String)) (orig : List String) :
+    List (String × RefVal) → Dict × List String → Except PyErr (Dict × List String)
+  | [], st => .ok st
+  | (k, v) :: rest, (els, done) =>
+    match expand k with
+    | .error e => .error e
+    | .ok zs =>
+      match attachGroup orig v zs (els, done) with
+      | .error e => .error e
+      | .ok (els', done') => attachMap expand orig rest (els', done' ++ zs)
+
+def attachAll (els : Dict) (v : J) : Except PyErr Dict :=
+  els.foldl (fun acc kv => match acc with
+    | .error e => .error e
+    | .ok d => setRefs d kv.1 v) (.ok els)
+
+/-- the reference part of `add_basis_from_dict` -/
+def attachRefs (expand : String → Except PyErr (List String)) (els : Dict) : RefSpec → Except PyErr Dict
+  | .none => attachAll els (.arr [])
+  | .one k => attachAll els (.arr [.str k])
+  | .many ks => attachAll els (.arr (ks.map .str))
+  | .map m =>
+    match attachMap expand (Dict.keys els) m (els, []) with
+    | .error e => .error e
+    | .ok (els', done) =>
+      -- elements without a reference get an empty list
+      attachAllIn els' ((Dict.keys els).filter (fun z => !done.contains z))
+  | .other => .error .runtime
+where
+  attachAllIn (els : Dict) : List String → Except PyErr Dict
+    | [] => .ok els
+    | z :: zs => match setRefs els z (.arr []) with
+      | .error e => .error e
+      | .ok els' => attachAllIn els' zs
+
+structure DictReq where
+  subdir : String
+  fileBase : String
+  name : String
+  family : String
+  role : String
+  description : String
+  version : String
+  revdesc : String
+  dataSource : String
+  today : String
+  deriving Repr
+
+def DictReq.compRel (r : DictReq) : String := joinPath r.subdir (r.fileBase ++ "." ++ r.version ++ ".json")
+
+def DictReq.toReq (r : DictReq) : Req :=
+  { comps := [r.compRel], subdir := r.subdir, fileBase := r.fileBase, name := r.name, family := r.family, role := r.role,
+    description := r.description, version := r.version, revdesc := r.revdesc, today := r.today }
+
+/-- the dictionary that is validated and written: description and data source set, references attached -/
+def componentOf (expand : String → Except PyErr (List String)) (bs : Dict) (r : DictReq) (refs : RefSpec) : Except PyErr Dict :=
+  let bs1 := Dict.set (Dict.set bs "description" (.str r.description)) "data_source" (.str r.dataSource)
+  match Dict.get? bs1 "elements" with
+  | some (.obj els) =>
+    match attachRefs expand els refs with
+    | .error e => .error e
+    | .ok els' => .ok (Dict.set bs1 "elements" (.obj els'))
+  | some _ => .error .attribute
+  | none => .error .key
+
+/-- `add_basis_from_dict`: `valid` is the verdict of `validate_data('component', …)` on the dictionary about to be written -/
+def addBasisFromDict (expand : String → Except PyErr (List String)) (valid : Dict → Bool)
+    (fs : Files) (bs : Dict) (r : DictReq) (refs : RefSpec) : Files × Option PyErr :=
+  match componentOf expand bs r refs with
+  | .error e => (fs, some e)
+  | .ok comp =>
+    if !valid comp then (fs, some .runtime) else
+    if exists_ fs r.compRel then (fs, some .runtime) else
+    addFromComponents (fs ++ [(r.compRel, .obj comp)]) r.toReq
+
 end BSE.AddBasis
